@@ -128,7 +128,7 @@ def gen_valid(tier, seed):
     nmax = 4 if tier == "quick" else 5
     cid = 0
     for n in range(1, nmax + 1):
-        for start in (1, 7):
+        for start in (0, 1, 7):
             for h in valid_histories(n, start, ("A", "N")):
                 cid += 1
                 ctor = "new %d" % start
@@ -143,7 +143,7 @@ def gen_valid(tier, seed):
     rng.shuffle(hs)
     take = 4000 if tier == "quick" else len(hs)
     for h in hs[:take]:
-        start = rng.choice([1, 7, 2 ** 63])
+        start = rng.choice([0, 1, 7, 2 ** 63])
         cid += 1
         cases.append(Case("w%d" % cid, ["new %d" % start] + [op(rng.choice("AN"), t - 1 + start, m) for (_k, t, m) in h]))
     # every early-drop pattern for small n
@@ -166,7 +166,7 @@ def gen_arbitrary(tier, seed):
     n = 3000 if tier == "quick" else 60000
     cases = []
     for i in range(n):
-        start = rng.choice([1, 1, 3, 2 ** 63])
+        start = rng.choice([0, 1, 1, 3, 2 ** 63])
         span = rng.randint(1, 8)
         ln = rng.randint(1, 10)
         ops = ["new %d" % start]
@@ -224,7 +224,7 @@ def suites(tier, seed):
               rule="70 000 single confirmations (mixed ack/nack) arrive while the first tag is still outstanding (start tags 1 and 10^6); the gap is then closed by a single confirm / by a multiple whose iterator is dropped after one item: all 70 001 come out in order with their outcomes (after the dropped iterator: the next tag comes out at once) (quick: judged by the oracle only; thorough: also diffed against the Lean model, whose sorted-list stash makes that take minutes)"),
         Suite("smoother-valid", "smoother", lambda: gen_valid(tier, seed), monitor=monitor, nontrivial=nontrivial,
               spec_engine="smoother-spec", exhaustive=True,
-              rule="corpus + ALL valid histories (own tag always new) with every ack/nack labelling for n<=%d tags, starts {1,7}; n=%d sampled kinds/starts {1,7,2^63}; every early-drop pattern (take 0/1/2/all per call; a third of them dropped by a panic of the consumer, i.e. during unwinding) for n<=%d" % (
+              rule="corpus + ALL valid histories (own tag always new) with every ack/nack labelling for n<=%d tags, starts {0,1,7}; n=%d sampled kinds/starts {0,1,7,2^63}; every early-drop pattern (take 0/1/2/all per call; a third of them dropped by a panic of the consumer, i.e. during unwinding) for n<=%d" % (
                   4 if tier == "quick" else 5, 5 if tier == "quick" else 6, 3 if tier == "quick" else 4)),
         Suite("smoother-arbitrary", "smoother", lambda: gen_arbitrary(tier, seed), monitor=monitor, nontrivial=nontrivial,
               spec_engine="smoother-spec",
